@@ -85,7 +85,7 @@ def do(e, op):
         # samples reversed) and drops the tables it had computed from the old contents
         if e['sig'].flags.writeable:
             e['sig'][...] = np.array(e['sig'][::-1], copy=True)
-            for key in ('df', 'shape', 'samples', 'sub', 'cps', 'cps0'):
+            for key in ('df', 'shape', 'shape_sub', 'samples', 'sub', 'cps', 'cps0'):
                 e.pop(key, None)
         return None
     try:
@@ -101,6 +101,12 @@ def do(e, op):
         if k == 'burst_features':
             bk = e['bk'] if e['method'] == 'cycles' else e.setdefault('bk_full', dict(e['bk'] or {}, fs=fs, f_range=fr))
             return compute_burst_features(shape(), sig, burst_method=e['method'], burst_kwargs=bk)
+        if k == 'burst_features_sub':
+            # burst features of a stretch of the shape table that keeps its own row labels
+            if 'shape_sub' not in e:
+                e['shape_sub'] = shape().iloc[2:].copy()
+            bk = e['bk'] if e['method'] == 'cycles' else e.setdefault('bk_full', dict(e['bk'] or {}, fs=fs, f_range=fr))
+            return compute_burst_features(e['shape_sub'], sig, burst_method=e['method'], burst_kwargs=bk)
         if k == 'cyclepoints':
             return compute_cyclepoints(sig, fs, fr, **(e['fek'] or {}))
         if k == 'parts':
@@ -256,8 +262,10 @@ def gen_ops(rng, method, n, nsamp, fs):
             ops.append(('features_other_center',))
         elif r < 0.32:
             ops.append(('shape',))
-        elif r < 0.40:
+        elif r < 0.37:
             ops.append(('burst_features',))
+        elif r < 0.40:
+            ops.append(('burst_features_sub',))
         elif r < 0.44:
             ops.append(('cyclepoints',))
         elif r < 0.48:
